@@ -436,6 +436,7 @@ def explore_body(I, src, run_body, acc_names, poisoned, env, want_updates=(), to
         kind, exc = "normal", None
         value, binds = src.value_at(I, j)
         bindl.append(binds)
+        child._loop_binds = list(binds)
         nguard0 = len(child.guard)
         I.loop_effects = [] if tolerate_break_effects else None
         try:
